@@ -1015,24 +1015,24 @@ Definition hsl_args_ok (nums : list float) : bool :=
   | h :: rest => hsl_in_range h 360 && forallb (fun x => hsl_in_range x 100) rest
   end.
 
-(* with the documented range test: accepted exactly when 1..4 arguments are all
+(* hsl: accepted exactly when 1..4 arguments are all
    in their documented ranges; missing arguments default to 100, 50, 100; the
    result has the documented shape *)
-Lemma hsl_fixed_spec nums : (1 <= List.length nums <= 4)%nat ->
-  hsl_fixed o nums =
+Lemma hsl_model_spec nums : (1 <= List.length nums <= 4)%nat ->
+  hsl_model o nums =
   if hsl_args_ok nums
   then ORet (VStr (hsl_text o (nth 0 nums 0%float) (nth 1 nums 100%float) (nth 2 nums 50%float) (nth 3 nums 100%float)))
   else OPanic BadArguments.
 Proof.
   destruct nums as [|a [|b [|c [|d [|e r]]]]]; simpl; intros H; try lia;
-    unfold hsl_fixed, hsl_with; simpl;
+    unfold hsl_model, hsl_with; simpl;
     repeat match goal with |- context [hsl_in_range ?x ?hi] => destruct (hsl_in_range x hi); simpl end;
     reflexivity.
 Qed.
 
-(* the code (range tests written as `x < 0 || x > max`): the same, for numbers *)
-Lemma hsl_model_spec nums : Forall (fun x => is_nan x = false) nums ->
-  hsl_model o nums = hsl_fixed o nums.
+(* the tests before 1433667 (`x < 0 || x > max`) gave the same result for numbers *)
+Lemma hsl_before_fix_agrees nums : Forall (fun x => is_nan x = false) nums ->
+  hsl_before_fix o nums = hsl_model o nums.
 Proof.
   intros F. apply hsl_with_ext. intros x Hin.
   rewrite Forall_forall in F. specialize (F x Hin).
@@ -1045,10 +1045,10 @@ Lemma hsl_defaults h sa l :
   hsl_model o [h; sa] = hsl_model o [h; sa; 50%float; 100%float] /\
   hsl_model o [h; sa; l] = hsl_model o [h; sa; l; 100%float].
 Proof.
-  assert (A : hsl_out_of_range 100 100 = false) by (vm_compute; reflexivity).
-  assert (B : hsl_out_of_range 50 100 = false) by (vm_compute; reflexivity).
+  assert (A : hsl_in_range 100 100 = true) by (vm_compute; reflexivity).
+  assert (B : hsl_in_range 50 100 = true) by (vm_compute; reflexivity).
   unfold hsl_model, hsl_with. rewrite A, B.
-  repeat split; repeat match goal with |- context [hsl_out_of_range ?x ?hi] => destruct (hsl_out_of_range x hi) end; reflexivity.
+  repeat split; repeat match goal with |- context [hsl_in_range ?x ?hi] => destruct (hsl_in_range x hi) end; reflexivity.
 Qed.
 
 End HslFacts.
